@@ -406,6 +406,17 @@ def c09_step(F):
             else:
                 if cnt - prev != 1 and cls in ("Machine", "Source"):   # a splitter may drop several items of one pallet in one step
                     F.soft("C09:discard-count-rose-by-%d@%s" % (cnt - prev, cls), {})
+                exp = getattr(F, "sel_answers", {}).get((n.id, "out"))
+                if cls == "Splitter" and exp is not None and n.out_edge_selection != "FIRST_AVAILABLE":
+                    # several drops in one kernel step (no time passes, nothing is pushed in between): every dropped item must have been offered to
+                    # the edge the policy selected for IT - the j-th item that asked for an edge gets the j-th answer
+                    moves = sum(1 for ev in F.events if ev[0] == "put" and ev[3] is n)
+                    for j in range(cnt - prev):
+                        a = moves + prev + j
+                        if a < len(exp) and 0 <= exp[a] < len(n.out_edges) and has_room_for(F, n.out_edges[exp[a]], None):
+                            F.soft("C09:non-blocking-node-dropped-an-item-although-its-selected-out-edge-had-room@Splitter", {"edge": n.out_edges[exp[a]].id, "answer": a})
+                            break
+                    continue
                 if n.out_edge_selection == "FIRST_AVAILABLE":
                     es = list(n.out_edges)
                 else:
@@ -797,6 +808,11 @@ def c18_final(F, T):
                 F.soft("C18:num_item_processed-differs-from-items-pushed@Machine", {"counter": n.stats["num_item_processed"], "pushed": pushed})
             if n.stats["num_item_discarded"] != dropped:
                 F.soft("C18:num_item_discarded-differs-from-items-dropped@Machine", {"counter": n.stats["num_item_discarded"], "dropped": dropped})
+        elif cls in ("Splitter", "Combiner"):
+            pushed = sum(1 for ev in F.events if ev[0] == "put" and ev[3] is n)
+            ctx.hit("C18:counters-checked@" + cls)
+            if n.stats["num_item_processed"] != pushed:
+                F.soft(f"C18:num_item_processed-differs-from-items-pushed@{cls}", {"counter": n.stats["num_item_processed"], "pushed": pushed})
         elif cls == "Sink":
             got = [r for r in F.items.values() if r.loc == ("sink", n)]
             if n.stats["num_item_received"] != len(got):
